@@ -23,7 +23,7 @@ RULE_TEXT = ('runs = deterministic sweep over defect classes (15) x every varian
              'class, mode/command).')
 REACH_PROBES = ['class_syntax', 'class_unknown_instruction', 'class_undefined_symbol', 'class_defined_later',
                 'class_wrong_type', 'class_illegal_relativity', 'class_missing_home_file', 'class_missing_file_absolute_path', 'class_bad_integer',
-                'class_bad_integer_expression', 'class_bad_regex', 'class_act_syntax', 'class_act_defect',
+                'class_bad_integer_expression', 'class_bad_regex', 'class_act_syntax', 'class_act_defect', 'defect_phase_partly_in_included_file', 'sections_redeclared_or_reordered',
                 'act_defect_command_line_actor', 'act_defect_file_actor', 'act_defect_source_actor', 'class_stub_validation',
                 'class_stub_symbols', 'class_suite_shared_instruction', 'class_none_symbol_cmd', 'last_line_of_cleanup', 'mode_normal', 'mode_keep',
                 'mode_act', 'cmd_symbol', 'cmd_symbol_name', 'control_ok']
@@ -161,6 +161,12 @@ def sweep_specs():
             for pos in ('first', 'middle', 'last'):
                 for mode in ('normal', 'keep'):
                     S.append({'cls': cls, 'variant': 0, 'phase': ph, 'pos': pos, 'cmd': mode, 'step': step, 'kind': kind})
+    # the defect stands in an included file / in the second declaration of its phase / in a file whose sections are
+    # declared in reverse order
+    for cls in sorted(DEFECTS):
+        for ph in DEFECTS[cls][0][1]:
+            for lay in ('included', 'second_declaration', 'reverse_order'):
+                S.append({'cls': cls, 'variant': 0, 'phase': ph, 'pos': 'last', 'cmd': 'normal', 'layout': lay})
     # defects in [act], for each kind of actor that has contents; a symbol that is defined only *after* [act] (in any of
     # the later phases) is as undefined for the action to check as one that is never defined
     for (ai, cls, vi) in ACT_SPECS:
@@ -283,6 +289,21 @@ def build(seed, tier, case, spec, g, sweep):
         # the symbol is defined after its use: on the very last line of [cleanup]
         case['cleanup'].append({'k': 'real', 'text': 'def string LATER = l', 'e': 1})
         control['cleanup'].append({'k': 'real', 'text': 'def string LATER = l'})
+    lay = spec.get('layout')
+    if lay is None and not sweep and cls in DEFECTS:
+        lg = kernel.stream(seed, 'layout')
+        if lg.random() < 0.4:
+            lay = 'random'
+            layout = casegen.random_layout(lg)
+    if lay == 'included':
+        layout = {'include': {ph: [len(case[ph]) - 1, 1]}}
+    elif lay == 'second_declaration':
+        layout = {'split': [ph]}
+    elif lay == 'reverse_order':
+        layout = {'order': list(reversed(casegen.PHASES))}
+    if lay:
+        case['layout'] = layout
+        control['layout'] = copy.deepcopy(layout)
     procs = {'atc': {'exit': 0, 'stdout': 'o\n'}}
     for c in (case,):
         for p in PHASES:
@@ -350,7 +371,7 @@ def execute(plan, scratch):
     w.populate(plan['files'])
     spec = plan['spec']
     # -- control: the undefected base must have effects in every phase
-    w.write('home/t.case', casegen.render_case(plan['control']))
+    casegen.write_case(w, plan['control'])
     ctl_plan = dict(plan, faults=[])
     sim0 = kernel.Sim(ctl_plan, w)
     with patches.installed(sim0):
@@ -359,8 +380,7 @@ def execute(plan, scratch):
     control_ok = (r0['exit'] == 0 and all(t in tags for t in ('m-setup', 'atc', 'm-ba', 'm-as', 'm-cl'))
                   and len(sim0.sandboxes) == 1 and not w.tmp_entries())
     # -- the defective case
-    text = casegen.render_case(plan['case'])
-    w.write('home/t.case', text)
+    text = casegen.write_case(w, plan['case'])
     cmd = spec['cmd']
     argv = {'normal': ['t.case'], 'keep': ['--keep', 't.case'], 'act': ['--act', 't.case'],
             'symbol': ['symbol', 't.case'], 'symbol_name': ['symbol', 't.case', 'STRSYM']}[cmd]
@@ -379,6 +399,11 @@ def execute(plan, scratch):
     pr[('mode_' if cmd in ('normal', 'keep', 'act') else 'cmd_') + cmd] = 1
     if control_ok:
         pr['control_ok'] = 1
+    lay_ = plan['case'].get('layout') or {}
+    if lay_.get('include') and spec.get('phase') in lay_['include']:
+        pr['defect_phase_partly_in_included_file'] = 1
+    if lay_.get('split') or lay_.get('order'):
+        pr['sections_redeclared_or_reordered'] = 1
     if spec['cls'] == 'act_defect':
         pr['act_defect_%s_actor' % ['command_line', 'file', 'source'][spec['variant'][0]]] = 1
     hist['probes'] = pr
@@ -454,7 +479,7 @@ def classify_known(plan, hist, violation, kf):
 def signature(plan, hist):
     s = plan['spec']
     return hist['control_ok'], (s['cls'], tuple(s['variant']) if isinstance(s['variant'], list) else s['variant'], s['phase'], s['pos'] if s['pos'] != 'rand' else 'rand',
-                                s['cmd'], s.get('step'), s.get('later_phase'))
+                                s['cmd'], s.get('step'), s.get('later_phase'), s.get('layout'))
 
 
 def sample_view(plan, hist):
